@@ -2,6 +2,7 @@
 (detail/func_common.inl, ext/scalar_common.inl, ext/vector_common.inl, gtx/common.inl, gtx/compatibility.inl, ext/scalar_constants.inl, gtc/constants.inl)."""
 from props.common import *
 from fractions import Fraction
+import json
 LEVEL = 'proof'
 CLAIM = ("floor ceil trunc round roundEven fract abs sign isnan isinf, the four bit casts, min max clamp (2/3/4-argument, scalar/vector/broadcast overloads) step smoothstep mix (float and bool "
          "interpolator) mod modf frexp ldexp, fmin fmax fclamp (2/3/4-argument), the texture-coordinate wrappers clamp/repeat/mirrorClamp/mirrorRepeat, iround/uround, gtx/common isdenormal fmod "
@@ -18,7 +19,7 @@ BOUNDS = ('all 2^32 float / 2^64 double patterns per argument (n symbolic argume
           'clamp/fclamp range facts: minVal <= maxVal; iround/uround: 0 <= x < 2^31 - 0.5 / 2^32 - 0.5 (every x whose nearest integer is representable; x >= 0 is the documented assert); wrap functions: finite coordinates; '
           'frexp/ldexp: all finite x, all 32-bit exponents')
 OUTSIDE = ('accuracy of the composite float formulas mod and mix (only the IEEE evaluation of the documented formula, end values and exact special cases are decided) and the interior of smoothstep '
-           '(range [0,1]: float proved, double >= 0 proved and <= 1 attempted as an optional obligation in the thorough tier only: the lemma P(t) <= 1 on [0,1] for doubles does not finish); fmod/atan2 values (library functions, uninterpreted: only routing and lifting); NaN payloads; the undefined behaviour of the int casts inside '
+           '(range [0,1]: float proved, double >= 0 proved and <= 1 attempted as an optional obligation in the thorough tier only: the lemma P(t) <= 1 on [0,1] for doubles does not finish); fmod/atan2 values (library functions, uninterpreted: only routing and lifting); NaN payloads and signaling NaNs (SMT-LIB FP has one NaN: natively glm::fmin/fmax/fclamp, which forward to std::fmin/fmax, return NaN for a SIGNALING NaN operand when the call reaches glibc - IEEE 754-2008 minNum - and ignore it when the compiler inlines the call; quiet NaNs behave as proved); which zero fmin/fmax return for operands +0, -0; the undefined behaviour of the int casts inside '
            'roundEven for |x| >= 2^31, inf, NaN (that is C20; here only the returned value is checked, side obligations of roundEven are not discharged); the pre-C++11 fallbacks (C15) and SIMD paths (C03)')
 ASSUMPTIONS = ['term normalisation canon(): z3 simplifier + sorting of fp.add/fp.mul operands + to_fp(to_ieee_bv(x)) = x + pushing a bit reinterpretation through a selection (the IEEE identities used are re-proved each run in job ieee_lemmas)',
                'cvc5 1.0.3 (default FP solver, no int-blasting) decides the pure FP lemmas about one division / one subtraction; z3 is the fallback',
@@ -539,11 +540,12 @@ def run_entry(S, e, t, var=None, L=0):
     def Xs(i, k): return [i[j][k] if (var is None or var[j] == 'v') else i[j][0] for j in range(len(e.args))]
     def Os(o, k): return [o[q][k] for q in range(len(e.out))] if e.multi else o[0][k]
     def lab(l, k): return l if var is None else '%s.%d' % (l, k)
-    cutbox = []
+    cutbox = []; only = []
     def spec(i, o):
         g = []
         for k in range(n):
             for l, gl in e.spec(w, Xs(i, k), Os(o, k)):
+                if only and lab(l, k) not in only: continue
                 if cutbox: gl = apply_cuts(canon(gl)[0], cutbox)         # cut terms are in canonical form: bring the goal to the same form first
                 gc, ok = canon(gl)
                 g.append((lab(l, k), z3.BoolVal(True) if ok else (gc if cutbox else gl)))
@@ -569,7 +571,32 @@ def run_entry(S, e, t, var=None, L=0):
     if e.alias:         # the same symbolic value is passed for two arguments (translator validation by independent sampling is switched off for these)
         ins = mkvars(U.fns[wname(e, t, var, L)]); dst, src = e.alias
         ins[dst] = [ins[src][k if len(ins[src]) > 1 else 0] for k in range(len(ins[dst]))]; kw = dict(validate=0)
-    S.check_fn(U, wname(e, t, var, L), spec, pre, ins=ins, **kw, timeout=to, known=e.known, side=e.side, bounds=e.bounds, mutant=mut, mandatory=e.mandatory, extra_hyps=extra)
+    libm_minmax = e.name.startswith(('fmin', 'fmax', 'fclamp'))
+    if libm_minmax: kw = dict(validate=0)
+    fname = wname(e, t, var, L); n0 = len(S.records)
+    res = S.check_fn(U, fname, spec, pre, ins=ins, **kw, timeout=to, known=e.known, side=e.side, bounds=e.bounds, mutant=mut, mandatory=e.mandatory, extra_hyps=extra)
+    if libm_minmax and res is not None:
+        # translator validation restricted to what the model of libm fmin/fmax covers: quiet NaNs (glibc returns NaN when an operand is a SIGNALING NaN - IEEE 754-2008 minNum -, compilers that
+        # inline the call do not; SMT-LIB FP has one NaN) and no pair of zeros of opposite sign among the operands (fmin(+0, -0) may return either zero)
+        fl = [x for row, (c_, n_) in zip(res.ins, res.fn.ins) if ct_kind(c_) == 'f' for x in row]; mb = 23 if w == 32 else 52
+        flt = [z3.Not(z3.And(bit_nan(x), z3.Extract(mb - 1, mb - 1, x) == 0)) for x in fl]
+        flt.append(z3.Not(z3.And(z3.Or(*[x == 0 for x in fl]), z3.Or(*[x == z3.BitVecVal(1 << (w - 1), w) for x in fl]))))
+        ncmp, bad = validate_translation(res, S.rnd, 4 if S.quick else 12, pre=z3.And(*flt))
+        S.validated += ncmp
+        if bad: S.engine_errors.append('c11.%s: symbolic term disagrees with native execution: %s' % (fname, json.dumps(bad[0])))
+    if e.eh and res is not None:
+        # a counterexample of an obligation proved through cuts may be an artefact of the over-approximation (fresh floats): such obligations are decided again on the uncut terms
+        sp = [r_ for r_ in S.records[n0:] if str(r_.get('status', '')).startswith('inconclusive(cex not reproduced')]
+        if sp:
+            pfx = 'c11.%s.' % fname; only[:] = [r_['name'][len(pfx):].replace('.outside-known', '') for r_ in sp]; saved = list(cutbox); cutbox[:] = []
+            n1 = len(S.records); nv = len(S.violations)
+            S.check_fn(U, fname, spec, pre, ins=ins, validate=0, witness=False, side=False, name='c11.%s.uncut' % fname, timeout=to, known=e.known, bounds=e.bounds + '; decided again without cuts', mandatory=e.mandatory)
+            new = [r_ for r_ in S.records[n1:] if r_.get('kind') == 'spec']
+            if new and all(r_.get('status') in ('discharged', 'counterexample') for r_ in new):       # every one decided (proved, or a natively reproduced violation)
+                for r_ in sp:
+                    r_['status'] = 'superseded by the uncut obligation'
+                    S.inconclusive[:] = [x for x in S.inconclusive if not x.startswith(r_['name'] + ' [')]
+            only[:] = []; cutbox[:] = saved
 def job_group(names, t, Ls, scalar=True):
     def run(S):
         for nm in names:
